@@ -313,4 +313,158 @@ example : (run { block := 4, idle := 20, lazy := false } init (ticks 3 1 ++ [In.
 after its end; the next production starts at 10. -/
 example : (run { block := 4, idle := 6, lazy := true } init (ticks 13 9)).2 = [0, 10] := by decide
 
+/-! ## The start of the loop: restart right after a block, first start before genesis time + block interval
+
+`AggregationLoop` first waits until one block interval after the last block (`startRef`: after genesis
+time when nothing has been produced), on a `select` that has no `txNotifyCh` case: a call of
+`NotifyNewTransactions` during the wait fills the one-slot channel and is served when the loop proper
+starts.  `boot c ref t0` is the loop called at `t0` with reference instant `ref`; the theorems hold for
+every `ref`, every `t0` (inside the block interval that follows `ref` or later), every pattern of
+notifications during the wait and every continuation. -/
+
+/-- the configurations of the start-up examples -/
+def cfgS : Cfg := { block := 10, idle := 30, lazy := true }
+def cfgSN : Cfg := { block := 10, idle := 30, lazy := false }
+
+/-- **The first block after a (re)start is produced no earlier than one block interval after the last
+block** (after genesis time at the first start) — in both modes, whatever is notified during the wait or
+afterwards, and every later production likewise. -/
+theorem C17_startup_respects_block_interval (c : Cfg) (ref t0 : Nat) (ins : List In) :
+    ∀ q ∈ (sysRun c (boot c ref t0) ins).2, ref + c.block ≤ q := by
+  intro q hq
+  obtain ⟨wake, e, _, hw⟩ := boot_wake c ref t0
+  rw [e] at hq
+  have h := sys_lower_run (c := c) (m := 0) (Nat.zero_le _) (fun _ => Nat.zero_le _) wake ins t0 false
+  have := spacedFrom_ge 0 _ wake h q hq
+  omega
+
+/-- … with the reference instant spelled out as the code computes it (`height < initialHeight`: genesis
+time, otherwise the time of the last block). -/
+theorem C17_startup_respects_block_interval_ref (c : Cfg) (height initialHeight genesisT lastT t0 : Nat) (ins : List In) :
+    ∀ q ∈ (sysRun c (boot c (startRef height initialHeight genesisT lastT) t0) ins).2,
+      (height < initialHeight → genesisT + c.block ≤ q) ∧ (initialHeight ≤ height → lastT + c.block ≤ q) := by
+  intro q hq
+  have h := C17_startup_respects_block_interval c _ t0 ins q hq
+  unfold startRef at h
+  constructor
+  · intro hh; simpa [hh] using h
+  · intro hh; have : ¬ height < initialHeight := by omega
+    simpa [this] using h
+
+/-- non-vacuity: restarted 2 ms after a block at 0 (block interval 10), notified 1 ms later: productions at
+10 and 20, lazy mode; at 10 and 20 in normal mode (which would produce them anyway). -/
+example : (sysRun cfgS (boot cfgS 0 2) ([In.tick 0 1, In.notify] ++ ticks 22 1)).2 = [10, 20] := by decide
+example : (sysRun cfgSN (boot cfgSN 0 2) ([In.tick 0 1, In.notify] ++ ticks 22 1)).2 = [10, 20] := by decide
+/-- restarted later than one block interval after the last block: no wait, a block at once. -/
+example : (sysRun cfgS (boot cfgS 0 17) (ticks 3 1)).2 = [17] := by decide
+
+/-- **A notification that arrives during the start-up wait is not lost.**  If the loop is still in the
+wait after an arbitrary prefix `pre` that contains a call of `NotifyNewTransactions`, then in every
+continuation that gets past the bound a production starts — after the notification, no earlier than one
+block interval after the last block, and no later than one block interval after the end of the wait.
+(Both modes; the clause is about the lazy one, `C17_startup_notification_not_lost_lazy`.) -/
+theorem C17_startup_notification_not_lost (c : Cfg) (hB : 1 ≤ c.block) (hI : 1 ≤ c.idle) (ref t0 : Nat)
+    (pre post : List In) (now wake : Nat) (chan : Bool) :
+    let w := (sysRun c (boot c ref t0) pre).1
+    w = .waiting now wake chan → In.notify ∈ pre →
+    wake + c.block < (sysRun c w post).1.now →
+    wake = max t0 (ref + c.block) ∧
+    ∃ q, q ∈ (sysRun c w post).2 ∧ now ≤ q ∧ ref + c.block ≤ q ∧ q ≤ wake + c.block := by
+  intro w hw hn hd
+  obtain ⟨wake0, e, h0, h1⟩ := boot_wake c ref t0
+  have hw' : (sysRun c (.waiting t0 wake0 false) pre).1 = .waiting now wake chan := by rw [← e]; exact hw
+  obtain ⟨a, _, _, d, f⟩ := sysRun_still_waiting c wake0 pre t0 false now wake chan hw'
+  have hc : chan = true := f (Or.inr hn)
+  subst a hc
+  have hnw : now ≤ wake := d h0
+  rw [hw] at hd ⊢
+  obtain ⟨q, hq, q1, q2⟩ := sys_wake_due hB hI wake post now hnw hd
+  refine ⟨?_, q, hq, by omega, by omega, q2⟩
+  have : boot c ref t0 = .waiting t0 (t0 + startDelay c ref t0) false := rfl
+  rw [this] at e
+  simp only [Sys.waiting.injEq, true_and, and_true] at e
+  rw [← e]; unfold startDelay; omega
+
+theorem C17_startup_notification_not_lost_lazy (c : Cfg) (_hl : c.lazy = true) (hB : 1 ≤ c.block) (hI : 1 ≤ c.idle)
+    (ref t0 : Nat) (pre post : List In) (now wake : Nat) (chan : Bool) :
+    let w := (sysRun c (boot c ref t0) pre).1
+    w = .waiting now wake chan → In.notify ∈ pre →
+    wake + c.block < (sysRun c w post).1.now →
+    wake = max t0 (ref + c.block) ∧
+    ∃ q, q ∈ (sysRun c w post).2 ∧ now ≤ q ∧ ref + c.block ≤ q ∧ q ≤ wake + c.block :=
+  C17_startup_notification_not_lost c hB hI ref t0 pre post now wake chan
+
+/-- non-vacuity: the hypotheses hold (still waiting at 4 with a notification sent at 3, the continuation
+gets to 21 > 10 + 10) and the block owed is the one at 10. -/
+example :
+    (sysRun cfgS (boot cfgS 0 2) [In.tick 0 1, In.notify, In.tick 0 1]).1 = .waiting 4 10 true ∧
+    In.notify ∈ [In.tick 0 1, In.notify, In.tick 0 1] ∧
+    10 + cfgS.block < (sysRun cfgS (Sys.waiting 4 10 true) (ticks 24 1)).1.now ∧
+    (sysRun cfgS (Sys.waiting 4 10 true) (ticks 24 1)).2 = [10, 20] :=
+  ⟨by decide, by simp, by decide, by decide⟩
+
+/-- **No lost wake-up after a (re)start**: `no_lost_wakeup` for the states the loop proper reaches after a
+start-up wait (instead of from `init`). -/
+theorem no_lost_wakeup_after_start (c : Cfg) (hB : 1 ≤ c.block) (hI : 1 ≤ c.idle) (ref t0 : Nat)
+    (pre post : List In) (s : St) :
+    (sysRun c (boot c ref t0) pre).1 = .running s →
+    Pending s → max s.now (flightEnd s) + c.block < (run c s post).1.now →
+    ∃ q, q ∈ (run c s post).2 ∧ s.now ≤ q ∧ flightEnd s ≤ q ∧ q ≤ max s.now (flightEnd s) + c.block := by
+  intro hs hp hd
+  have hi : Inv c s := by
+    have := sysInv_run hB hI pre (boot c ref t0) trivial
+    rw [hs] at this; exact this
+  obtain ⟨q, hq, h1, h2⟩ := run_due c (WakeDue c (max s.now (flightEnd s) + c.block)) _
+    (fun _ h => wake_now h)
+    (fun s i h ho => wake_tr hB hI h (step_tr c s i) ho)
+    post s (wake_of_pending hi hp) hd
+  exact ⟨q, hq, h1, run_out_ge_flightEnd c post s q hq, h2⟩
+
+/-- **The rate clause across a restart.**  `pre`: any run of the loop before the node stopped, `last` the
+start of its last production (the time of the last block); the loop is called again at any `t0` and runs
+on any `ins`.  All productions, before and after, are at least `min blockInterval idleInterval` apart … -/
+theorem C17_rate_min_across_restart (c : Cfg) (pre ins : List In) (last t0 : Nat) :
+    (run c init pre).2.getLast? = some last →
+    Spaced (min c.block c.idle) ((run c init pre).2 ++ (sysRun c (boot c last t0) ins).2) := by
+  intro hl
+  obtain ⟨wake, e, _, hw⟩ := boot_wake c last t0
+  rw [e]
+  refine spaced_append _ _ _ last hl (rate_min c pre) ?_
+  refine spacedFrom_mono _ _ wake _ ?_ (sys_lower_run (Nat.min_le_left _ _) (fun _ => Nat.min_le_right _ _) wake ins t0 false)
+  have := Nat.min_le_left c.block c.idle
+  omega
+
+/-- … and at least one block interval apart when `blockInterval ≤ idleInterval` (the hypothesis of
+`rate_partial`). -/
+theorem C17_rate_across_restart (c : Cfg) (h : c.block ≤ c.idle) (pre ins : List In) (last t0 : Nat) :
+    (run c init pre).2.getLast? = some last →
+    Spaced c.block ((run c init pre).2 ++ (sysRun c (boot c last t0) ins).2) := by
+  intro hl
+  obtain ⟨wake, e, _, hw⟩ := boot_wake c last t0
+  rw [e]
+  exact spaced_append _ _ _ last hl (rate_partial c h pre)
+    (spacedFrom_mono _ _ wake _ hw (sys_lower_run (Nat.le_refl _) (fun _ => h) wake ins t0 false))
+
+/-- the distance between the last block before and the first block after a restart is at least one block
+interval for EVERY ratio of the intervals (no hypothesis). -/
+theorem C17_restart_distance (c : Cfg) (pre ins : List In) (last t0 : Nat) :
+    (run c init pre).2.getLast? = some last →
+    ∀ q ∈ (sysRun c (boot c last t0) ins).2, last + c.block ≤ q :=
+  fun _ => C17_startup_respects_block_interval c last t0 ins
+
+/-- non-vacuity: blocks at 0 and 30 before the stop, restarted at 33 and notified at 34: next blocks at 40, 50. -/
+example :
+    (run cfgS init (ticks 35 1)).2 = [0, 30] ∧
+    (sysRun cfgS (boot cfgS 30 33) ([In.tick 0 1, In.notify] ++ ticks 22 1)).2 = [40, 50] := by decide
+
+/-- **Why the start-up `select` must not listen to `txNotifyCh`**: in the variant of the model whose wait
+ends on a notification (`sysStepEager`; the `select` is not in a loop) the loop restarted 2 ms after a
+block and notified 1 ms later produces a block at 3 — 7 ms early — in lazy and in normal mode, where the
+model of the code produces it at 10. -/
+theorem startup_wait_must_ignore_notifications :
+    (3 ∈ (sysRunEager cfgS (boot cfgS 0 2) ([In.tick 0 1, In.notify] ++ ticks 4 1)).2 ∧ 3 < 0 + cfgS.block) ∧
+    (3 ∈ (sysRunEager cfgSN (boot cfgSN 0 2) ([In.tick 0 1, In.notify] ++ ticks 4 1)).2 ∧ 3 < 0 + cfgSN.block) ∧
+    (sysRun cfgS (boot cfgS 0 2) ([In.tick 0 1, In.notify] ++ ticks 12 1)).2 = [10] ∧
+    (sysRun cfgSN (boot cfgSN 0 2) ([In.tick 0 1, In.notify] ++ ticks 12 1)).2 = [10] := by decide
+
 end Spec.C17
